@@ -100,6 +100,13 @@ CHECKS = {
         text="The space is finite and enumerated completely in both tiers (34 keys x 5 source patterns; 768 database sections). Keys whose values are interpreted while loading (log level/format, engine, network) use valid alternatives.",
         design="§3 C20",
     ),
+    "C06": dict(
+        engine="netwalk",
+        technique="explicit-state search (BFS with replay) over the P2P environment: each execution is a testing/synctest bubble holding the SQLite-backed services, the real sync engine (legacy p2p.server with its peerHandler, serverPeer listeners, SyncManager.blockHandler, connmgr; or the experimental peer.Peer API) and scripted wire-level nodes over net.Pipe under the fake clock; events {connect, deliver, announce (inv / headers per BIP 130), drop, mute, tick 35/100/200 s}; quiescence barrier synctest.Wait after every event; sync-peer selection owned through an import rewrite of crypto/rand; in EVERY reachable state the deterministic fair continuation (reliable node answers, reconnects, 15 min of clock) must reach the reliable node's best chain; safety oracle on every getheaders sent (locator on the longest chain, descending; stop zero or a checkpoint ahead)",
+        text="Exhaustive to the depth bound per scenario (6-7 events quick, 9-10 thorough; state sets of most scenarios close below it) over 61 scenarios: linear catch-up (reply caps inf/2, one or two nodes, checkpoints on/off, lists mid/two/at-tip, initial store genesis/prefix), announcements by one or two nodes racing with the sync, fork overtaking in one reply with initial stores genesis/main/stale-fork, both engines (experimental: one outbound peer, as its design and the statement say). Two classes of the default engine's sync-peer re-selection are open known findings.",
+        design="§3 C06, §2 E3",
+        note="Trusted: testing/synctest's fake clock and quiescence detection, net.Pipe instead of TCP (one writer goroutine per scripted node because the pipe is unbuffered), the scripted node as the definition of protocol-conformant. Within one event the engine's goroutines run freely; observations are taken only at quiescence.",
+    ),
 }
 
 NOT_YET = "check not built yet in this session (work in progress; see DESIGN.md §7 for the order of work)"
@@ -159,6 +166,8 @@ ENGINES = [
      "kind_free_text": "BFS over operation sequences and complete request products on the production gin engine / websocket connect handler over SQL-backed services"},
     {"name": "domwalk", "path": "harness/domwalk", "serves_properties": ["C14", "C19", "C20"],
      "kind_free_text": "complete enumeration of finite input domains (wire frames and their single-fault mutations, 32-bit arithmetic domain, configuration keys x sources) against independent references"},
+    {"name": "netwalk", "path": "harness/netwalk", "serves_properties": ["C06", "C07"],
+     "kind_free_text": "explicit-state search over the P2P environment inside testing/synctest bubbles: real sync engines against scripted wire-level nodes, fake clock, quiescence barrier after every event, fair-closure liveness oracle in every state"},
     {"name": "storewalk", "path": "harness/storewalk", "serves_properties": ["C01", "C02", "C03", "C04", "C08", "C13"],
      "kind_free_text": "explicit-state DFS over reachable header stores; successor = file copy of the parent's SQLite store + one real Chains.Add"},
 ]
